@@ -13,7 +13,7 @@ def _reg(p):
 _reg(SchedProp('C01', ['Ea.inv_reachable', 'Ea.step_inv', 'Ea.C01.queue_invariant', 'Ea.C01.never_early',
                        'Ea.step_good', 'Ea.runSpec', 'Ea.wakeSpec', 'Ea.C01.good_reachable', 'Ea.C01.timer_armed_for_head',
                        'Ea.C01.nothing_due_after_wakeup', 'Ea.C01.due_jobs_executed_in_wakeup',
-                       'Ea.C01.due_jobs_executed_at_their_time']))
+                       'Ea.C01.due_jobs_executed_at_their_time', 'Ea.C01.due_jobs_executed_on_enable']))
 _reg(SchedProp('C02', ['Ea.C02.only_running_queued_once', 'Ea.C02.not_running_not_queued', 'Ea.C02.duplicate_id_inert',
                        'Ea.C02.bad_argument_inert', 'Ea.C02.failed_creation_not_queued',
                        'Ea.step_quiet_notQueued', 'Ea.step_quiet_disabled', 'Ea.control_keep',
@@ -41,7 +41,7 @@ from props_prod import ProdProp  # noqa: E402
 
 _reg(ProdProp('C04', ['Ea.C04.getNext_gt', 'Ea.C04.query_gt', 'Ea.C04.loop_bound_matches']))
 _reg(ProdProp('C05', ['Ea.C05.getNext_least', 'Ea.C05.result_passes_filter', 'Ea.intervalNext_least', 'Ea.timeNext_least',
-                      'Ea.groupNext_least']))
+                      'Ea.groupNext_least', 'Ea.C05.timeRegular_fixed_offset', 'Ea.C05.time_least_fixed_offset']))
 _reg(ProdProp('C06', ['Ea.C06.replace_unique', 'Ea.C06.replace_gap_skip', 'Ea.C06.replace_gap_earlier_later',
                       'Ea.C06.replace_gap_after', 'Ea.C06.replace_fold', 'Ea.C06.time_once_per_day',
                       'Ea.C06.after_tries_matches', 'Ea.Zone.resolve_unique', 'Ea.Zone.resolve_fold', 'Ea.Zone.resolve_gap']))
